@@ -6,8 +6,8 @@ Import ListNotations.
 Open Scope N_scope.
 
 Ltac wsimpl := cbn [w_fes w_mod w_err w_cur w_buf set_fes set_mod set_err set_cur set_buf
-  active inc bud shut nw timers ready tpanics catchf set_active set_bud set_shut set_nw set_timers set_ready
-  set_tpanics set_catchf x_w x_log say on_w fst snd] in *.
+  active inc bud shut nw timers ready tfin catchf set_active set_bud set_shut set_nw set_timers set_ready
+  set_tfin set_catchf set_hnd hnd x_w x_log say say_all on_w fst snd] in *.
 
 Lemma mod_same w m x : w_mod (set_mod w m x) m = x.
 Proof. cbn [w_mod set_mod]. rewrite N.eqb_refl. reflexivity. Qed.
@@ -19,7 +19,7 @@ Proof. intros H. cbn [w_mod set_mod]. apply N.eqb_neq in H. rewrite H. reflexivi
 Definition item_mod (i : item) : option N :=
   match i with
   | ICall m _ _ _ | IReset m _ _ | ILog m _ _ | ISend m _ _ _ _ | ISched m _ _ _ | IShut m _ _
-  | IPanic m _ _ | IQuiet m | ICancel m _ | ISetCatch m _ _ => Some m
+  | IPanic m _ _ | IQuiet m | ICancel m _ | ISetCatch m _ _ | ITaskEnd m _ _ _ | ISpawn m _ _ _ => Some m
   | ISample _ _ => None
   end.
 
@@ -57,7 +57,7 @@ Record FrP (m : N) (w w' : world) : Prop := {
   fp_fr : Fr m w w';
   fp_timers : timers (w_mod w' m) = timers (w_mod w m);
   fp_ready : ready (w_mod w' m) = ready (w_mod w m);
-  fp_tp : tpanics (w_mod w' m) = tpanics (w_mod w m) }.
+  fp_tp : tfin (w_mod w' m) = tfin (w_mod w m) }.
 
 Lemma FrP_refl m w : FrP m w w.
 Proof. constructor; [apply Fr_refl|reflexivity..]. Qed.
@@ -68,7 +68,7 @@ Proof. intros [a b c d] [a' b' c' d']. constructor; [eapply Fr_trans; eauto|cong
 (* updating a field of module m that the relation does not mention *)
 Lemma FrP_set m w x :
   active x = active (w_mod w m) -> inc x = inc (w_mod w m) -> nw x = nw (w_mod w m) ->
-  timers x = timers (w_mod w m) -> ready x = ready (w_mod w m) -> tpanics x = tpanics (w_mod w m) ->
+  timers x = timers (w_mod w m) -> ready x = ready (w_mod w m) -> tfin x = tfin (w_mod w m) ->
   FrP m w (set_mod w m x).
 Proof.
   intros. constructor; [constructor|..]; try reflexivity; rewrite ?mod_same; auto.
@@ -105,7 +105,7 @@ Qed.
 
 (* records written by the runtime rather than by user code *)
 Definition is_sys (i : item) : bool :=
-  match i with IReset _ _ _ | ICancel _ _ | ISample _ _ => true | _ => false end.
+  match i with IReset _ _ _ | ICancel _ _ | ISample _ _ => true | ITaskEnd _ _ _ how => how =? 2 | _ => false end.
 Definition Usr (m : N) (i : item) : Prop := item_mod i = Some m /\ is_sys i = false.
 
 Lemma Usr_Own m l : Forall (Usr m) l -> Own m l.
@@ -173,13 +173,37 @@ Proof.
 Qed.
 
 (* ---- tasks ---- *)
+Lemma end_task_Fr m how s tk : Fr m (x_w s) (x_w (end_task m how s tk)).
+Proof. unfold end_task. wsimpl. apply Fr_set; reflexivity. Qed.
+
+Lemma end_task_LogExt m how s tk : (how =? 2) = false -> LogExt m s (end_task m how s tk).
+Proof.
+  intros H. unfold end_task. eapply LogExt_trans; [apply LogExt_on_w|apply LogExt_say].
+  split; [reflexivity|exact H].
+Qed.
+
+Lemma fold_end_task_Fr m : forall l s, Fr m (x_w s) (x_w (fold_left (end_task m 0) l s)).
+Proof. induction l as [|tk l IH]; intros s; cbn [fold_left]; [apply Fr_refl|]. eapply Fr_trans; [apply end_task_Fr|apply IH]. Qed.
+
+Lemma fold_end_task_LogExt m : forall l s, LogExt m s (fold_left (end_task m 0) l s).
+Proof.
+  induction l as [|tk l IH]; intros s; cbn [fold_left]; [apply LogExt_refl|].
+  eapply LogExt_trans; [apply (end_task_LogExt m 0); reflexivity|apply IH].
+Qed.
+
+Lemma LogExt_say_all m l s : Forall (Usr m) l -> LogExt m s (say_all l s).
+Proof. intros H. exists l. split; [reflexivity|exact H]. Qed.
+
+Lemma spawn_items_Usr m i ps : Forall (Usr m) (spawn_items m i ps).
+Proof. unfold spawn_items. apply Forall_forall. intros it H. apply in_map_iff in H. destruct H as (ip & <- & _). split; reflexivity. Qed.
+
 Lemma poll1_Fr k now m s tk : Fr m (x_w s) (x_w (poll1 k now m s tk)).
 Proof.
   unfold poll1.
   match goal with |- context [run_prog true k now m ?who ?p ?s0] =>
     pose proof (run_prog_FrP true k now m who p s0) as H; destruct (run_prog true k now m who p s0) as [s1 r] end.
   cbn [fst] in H. wsimpl. destruct H as [H _ _ _].
-  destruct r; wsimpl; try exact H; (eapply Fr_trans; [exact H|apply Fr_set; reflexivity]).
+  destruct r; wsimpl; try exact H; (eapply Fr_trans; [exact H|]); try apply end_task_Fr; apply Fr_set; reflexivity.
 Qed.
 
 Lemma poll1_LogExt k now m s tk : LogExt m s (poll1 k now m s tk).
@@ -189,7 +213,7 @@ Proof.
     pose proof (run_prog_LogExt true k now m who p s0) as H; destruct (run_prog true k now m who p s0) as [s1 r] end.
   cbn [fst] in H.
   assert (H0 : LogExt m s s1) by (eapply LogExt_trans; [|exact H]; apply LogExt_say; destruct (tk_new tk); split; reflexivity).
-  destruct r; try exact H0; (eapply LogExt_trans; [exact H0|apply LogExt_on_w]).
+  destruct r; try exact H0; (eapply LogExt_trans; [exact H0|]); try (apply end_task_LogExt; reflexivity); apply LogExt_on_w.
 Qed.
 
 Lemma fold_poll1_Fr k now m : forall l s, Fr m (x_w s) (x_w (fold_left (poll1 k now m) l s)).
@@ -224,7 +248,7 @@ Proof.
   cbn [fst] in H. wsimpl. destruct H as [H _ _ _].
   assert (H0 : Fr m (x_w s) (x_w s2)) by (eapply Fr_trans; [apply spawn_all_Fr|exact H]).
   destruct r; cbn [fst]; try exact H0; try (eapply Fr_trans; [exact H0|apply poll_ready_Fr]).
-  wsimpl. eapply Fr_trans; [exact H0|apply Fr_set; reflexivity].
+  eapply Fr_trans; [exact H0|]. eapply Fr_trans; [|apply fold_end_task_Fr]. wsimpl. apply Fr_set; reflexivity.
 Qed.
 
 Lemma exec_LogExt k now m c sp p s : LogExt m s (fst (exec k now m c sp p s)).
@@ -235,6 +259,7 @@ Proof.
   cbn [fst] in H.
   assert (H0 : LogExt m s s2).
   { eapply LogExt_trans; [apply LogExt_say with (i := ICall m c now (active (w_mod (x_w s) m))); split; reflexivity|].
-    eapply LogExt_trans; [apply LogExt_on_w|exact H]. }
+    eapply LogExt_trans; [apply LogExt_on_w|]. eapply LogExt_trans; [apply LogExt_say_all, spawn_items_Usr|exact H]. }
   destruct r; cbn [fst]; try exact H0; try (eapply LogExt_trans; [exact H0|apply poll_ready_LogExt]).
+  eapply LogExt_trans; [exact H0|]. eapply LogExt_trans; [apply LogExt_on_w|apply fold_end_task_LogExt].
 Qed.
